@@ -22,7 +22,7 @@ RULE = ('file names = product of segment kinds {file names in root, subdir, ., .
         'from a path wildcard. Non-trivial = the name contains a dot-dot, an absolute prefix, a backslash or a sibling name; '
         'distinct = distinct (root spelling, filename).')
 PYOPT = {'quick': 1, 'thorough': 1}     # one unit of every kind is also served by an interpreter started with -O (assert statements compiled out)
-REQUIRED = ['units_run_under_python_-O', 'calls_in_a_walk_over_root_spellings', 'calls_with_a_root_that_does_not_exist', 'names_that_are_not_text', 'names_of_more_than_64_segments', 'relative_root_after_chdir', 'head_requests', 'probes_after_serving_another_root', 'served_200', 'denied_403', 'missing_404', 'opens_observed', 'names_with_dotdot', 'names_with_backslash',
+REQUIRED = ['units_run_under_python_-O', 'refused_names_asked_again_conditionally', 'calls_in_a_walk_over_root_spellings', 'calls_with_a_root_that_does_not_exist', 'names_that_are_not_text', 'names_of_more_than_64_segments', 'relative_root_after_chdir', 'head_requests', 'probes_after_serving_another_root', 'served_200', 'denied_403', 'missing_404', 'opens_observed', 'names_with_dotdot', 'names_with_backslash',
             'names_absolute', 'names_sibling_prefix', 'served_content_compared', 'via_wsgi']
 EXHAUSTIVE = {'quick': False, 'thorough': False,
               'quick_note': 'the product units enumerate the name product for <=2 segments completely', 'thorough_note': 'the product units enumerate the name product for <=3 segments completely'}
@@ -219,6 +219,29 @@ def check_call(ctx, static_file, audit, base, files, real_root, rname, root, nam
         norm = _safe(os.path.normpath, os.path.join(real_root, name.strip('/\\')))
         if norm.startswith(inside) and os.path.isfile(norm) and os.access(norm, os.R_OK):
             ctx.count('readable_file_inside_root_answered_403(not a verdict)')
+    if code in (403, 404):
+        # the same name asked for conditionally (a date in the future, a date in the past) and as a range: headers of the
+        # request may turn a 200 into a 304 / 206, they never turn a refusal into anything else
+        import ombott
+        for hdrs in ({'If-Modified-Since': 'Fri, 01 Jan 2100 00:00:00 GMT'}, {'If-Modified-Since': 'Thu, 01 Jan 1970 00:00:01 GMT', 'Range': 'bytes=0-0'}):
+            ombott.request.__init__(make_environ('GET', '/', headers=hdrs))
+            try:
+                with audit:
+                    try:
+                        res2 = static_file(name, root)
+                        code2 = res2.status_code
+                    except Exception as e:  # noqa
+                        code2 = 'raised ' + type(e).__name__
+                ctx.count('refused_names_asked_again_conditionally')
+                if code2 != code:
+                    ctx.violation('refusal-depends-on-request-headers', f'static_file({name!r}, root={rname}:{root!r}) -> {code}, with {hdrs} -> {code2}', wit)
+                if [p for p in audit.paths if isinstance(p, (str, bytes))]:
+                    ctx.violation('open-on-denied-request', f'{name!r} with {hdrs}: {audit.paths!r}', wit)
+                body2 = getattr(locals().get('res2'), 'body', None)
+                if hasattr(body2, 'close'):
+                    body2.close()
+            finally:
+                ombott.request.__init__(make_environ('GET', '/'))
 
 
 def history_unit(ctx, unit):
